@@ -29,8 +29,8 @@ func enumLight(t *testing.T, prop, part string, progs []Case) {
 	maxSteps := envInt("VERIF_LIGHT_MAXSTEPS") // programs with a longer concurrent phase get bound 1 unless marked Deep
 	total, progsDone := 0, 0
 	for _, prog := range progs {
-		if os.Getenv("VERIF_TIER") != "thorough" && !prog.Deep { // (wide programs: thorough tier only, about 30 000 episodes of 300 keys)
-			continue // quick tier: the other programs are enumerated at bound 1 on the real stack (part enum)
+		if os.Getenv("VERIF_TIER") != "thorough" && !prog.Deep && prog.DirMax == 0 { // (wide programs: thorough tier only, about 30 000 episodes of 300 keys)
+			continue // quick tier: the other programs are enumerated at bound 1 on the real stack (part enum); those with a small directory limit exist on the light backend only and run here, at bound 1 unless Deep
 		}
 		for rot := 0; rot < len(prog.Clients); rot++ {
 			p := prog
